@@ -46,8 +46,11 @@ type Report struct {
 	keys    map[string]int
 }
 
+var procStart = time.Now()
+
 func newReport(prop, tier, level string) *Report {
-	return &Report{Prop: prop, Tier: tier, Level: level, Rules: map[string]string{}, start: time.Now(), keys: map[string]int{}}
+	// wall time includes loading and type-checking /repo (process start)
+	return &Report{Prop: prop, Tier: tier, Level: level, Rules: map[string]string{}, start: procStart, keys: map[string]int{}}
 }
 
 func (r *Report) rule(id, text string) { r.Rules[id] = text }
